@@ -38,9 +38,9 @@ def _variants(rng, scheme, items):
 
 
 def correspondence(ctx):
-    n = 10000 if ctx.thorough else 2000
+    n = 40000 if ctx.thorough else 2000
     T.run_corr(ctx, "corr_textvers", "vers-text", n)
-    per = 300 if ctx.thorough else 60
+    per = 1200 if ctx.thorough else 60
     for name in S.ALL:
         rcls = S.rclass(name)
         if rcls is None or rcls.scheme not in __import__("univers.version_range", fromlist=["x"]).RANGE_CLASS_BY_SCHEMES:
@@ -125,7 +125,7 @@ def correspondence(ctx):
 
 
 def _hash_seeds(ctx):
-    seeds = [0, 1, 2, 3] if not ctx.thorough else list(range(16))
+    seeds = [0, 1, 2, 3] if not ctx.thorough else list(range(32))
     n = 60 if ctx.thorough else 15
     outs = {}
     for hs in seeds:
